@@ -89,4 +89,10 @@ CHECKS = {
         "text": "About 600 molecules (every distinct corpus fragment plus 65 vendored charged / aromatic / hetero-aromatic / zwitterionic / cumulated ones, incl. [H+] and H2) under 3 (thorough: all) re-rootings: SMILES->graph->SMILES keeps the RDKit canonical SMILES and hydrogen total; h_to_implicit(h_to_explicit(g)) restores the graph, neither direction changes molecule or hydrogen total, inputs are not mutated. Every corpus reaction with bijective maps under its renumbering variants: centre ITS->GML->ITS is isomorphic on element, charge and (before, after) orders for all flag combinations, and the three documented routes to a GML rule agree (core and full).",
         "note": "Finite given set (corpora + vendored list), not chemistry at large. 6 corpus reactions whose [H+] exists on one side only have no faithful rule representation and are skipped (counted in the evidence).",
     },
+    "C09": {
+        "ready": True, "engine": "E1",
+        "technique": "exhaustive enumeration of the finite renumbering / re-rooting / fragment-order / centre-swap / fragment-edit families of every corpus reaction; RDKit-built mapped reaction graphs compared by an independent isomorphism enumerator",
+        "text": "For each of the 346 parsable corpus reactions and every member of the transformation families: CanonRSMI (wl and nauty) must return a parsable reaction with the same unmapped sides whose RDKit-built mapped reaction graph is isomorphic to the input's, be a fixed point, and give one output for all numberings/atom orders when all reactant atoms are distinguishable; Standardize.fit must be idempotent and invariant; AAMValidator.smiles_check must accept every renumbering (RC and ITS mode) and reject every exchange of two centre atoms that differ on both sides; rsmi_balance_check must agree with atom-by-atom counts on the reaction and on every delete/duplicate-a-fragment and add-a-proton variant.",
+        "note": "'Distinguishable' is read per back-end (exact: trivial automorphism group; 3-iteration refinement: pairwise different radius-3 neighbourhoods) so that the wl back-end is not asked for more than a refinement of that depth can deliver.",
+    },
 }
